@@ -322,6 +322,9 @@ func tableLayout(context *layoutContext, table_ bo.TableBoxITF, bottomSpace pr.F
 			endingCells, endingCellsByRow = endingCellsByRow[0], endingCellsByRow[1:]
 			if len(endingCells) != 0 { // in this row
 				if row.Height == pr.AutoF {
+					// the bottom of the lowest ending cell, which may be above
+					// the top of the page (negative)
+					rowBottomY = row.PositionY
 					for _, cell := range endingCells {
 						if v := cell.Box().PositionY + cell.Box().BorderHeight(); v > rowBottomY {
 							rowBottomY = v
